@@ -53,7 +53,8 @@ package ocidir
 //@   requires lock-held-when-claimed: locked ==> $held(OCIDir.mu)
 //@ func (*OCIDir).manifestGet(ctx, r) (m, err)
 //@   prop C06
-//@   modifies nothing
+//@   modifies $ghost
+//@   effect $fetched = (err == nil)
 //@   requires lock-held: $held(OCIDir.mu)
 //@ func (*OCIDir).manifestPut(ctx, r, m, opts) (err)
 //@   prop C06, C04
@@ -151,6 +152,25 @@ package ocidir
 //@   requires unmarked: !caller.dl[caller.digest]
 //@   requires no-copy-in-progress: caller.gc != nil && caller.gc.locks <= 0 && caller.gc.mod
 //@   requires under-layout-lock: $held(OCIDir.mu)
+// The sweep starts only after the mark phase walked the whole index successfully.
+//@ callsite os.ReadDir(name)
+//@   prop C08
+//@   name os.ReadDir/Close
+//@   in ~/scheme/ocidir
+//@   infunc \)\.Close$
+//@   requires mark-phase-complete: $walked
+//@ callsite (*OCIDir).closeProcManifest(ctx, r, m, dl)
+//@   prop C08
+//@   name closeProcManifest/Close
+//@   in ~/scheme/ocidir
+//@   infunc \)\.Close$
+//@   requires walks-the-index: m == caller.im && *dl == caller.dl
+//@ callsite (*OCIDir).closeProcManifest(ctx, r, m, dl)
+//@   prop C08
+//@   name closeProcManifest/recursive
+//@   in ~/scheme/ocidir
+//@   infunc \)\.closeProcManifest$
+//@   requires walks-the-fetched-child: $fetched && m == caller.cm && dl == caller.dl
 // Lock accounting
 //@ func (*OCIDir).GCLock(r)
 //@   prop C08
@@ -163,16 +183,24 @@ package ocidir
 //@   let n0 = o.modRefs[r.Path].locks
 //@   ensures unlock-counted: had && n0 > 0 ==> o.modRefs[r.Path].locks == n0 - 1
 //@   ensures never-negative: had && n0 <= 0 ==> o.modRefs[r.Path].locks == n0
+// Ghosts: $fetched = the last manifestGet succeeded and its result has not been walked yet;
+// $walked = the last closeProcManifest call returned nil.
+//@ ghost $fetched bool
+//@ ghost $walked bool
 // Mark phase: everything a manifest names is marked (and what a nested manifest names, by the
 // function's own contract for the recursive call); marks are never removed.
 //@ func (*OCIDir).closeProcManifest(ctx, r, m, dl) (err)
 //@   prop C08, C06
-//@   modifies M|map[string]bool
+//@   modifies M|map[string]bool, $ghost
+//@   effect $fetched = false
+//@   effect $walked = (err == nil)
+//@   entry-assume !$fetched
 //@   requires lock-held: $held(OCIDir.mu)
 //@   requires dl != nil
 //@   let dlm = *dl
 //@   loop 0 (cur)
 //@     invariant same-map: *dl == dlm && -1 <= $idx && $idx < len(ml)
+//@     invariant every-fetched-child-walked: !$fetched
 //@     invariant entries-marked: forall(k, 0, $idx + 1, dlm[string(ml[k].Digest)])
 //@     invariant marks-kept: forall(s, string, old(dlm[s]) ==> dlm[s])
 //@   loop 1 (layer)
